@@ -278,11 +278,13 @@ def akimaPoly (ge1 ge2 : Bool) (eps : K) (s : Slopes K) (extrap : Int) (val3 val
   else
     val3 + dx * (b + dx * (0 + dx * 0))
 
-/-- `interp_akima.py:InterpAkima.interpolate` (options `delta_x = 0`, `eps`). -/
-def akimaK (eps : K) (n : Nat) (g v : Nat → K) (idx : Nat) (x : K) : K :=
+/-- `interp_akima.py:InterpAkima.interpolate` (options `delta_x = 0`, `eps`).  `fix = false` is the
+code as it stands (`elif` chain of end conditions); `fix = true` the repaired code with independent
+end-condition blocks (what `Interp1DAkima.compute_coeffs_vectorized` already does). -/
+def akimaK (fix : Bool) (eps : K) (n : Nat) (g v : Nat → K) (idx : Nat) (x : K) : K :=
   let extrap : Int := if idx = n - 1 then 1 else if idx = 0 ∧ x < g 0 then -1 else 0
   let idx := if idx = n - 1 then n - 2 else idx
-  let s := akimaSlopes true n g v idx
+  let s := akimaSlopes (!fix) n g v idx
   let h := 1 / (g (idx + 1) - g idx)
   let dx := if extrap = 1 then x - g (idx + 1) else if extrap = 0 then x - g idx else x - g 0
   akimaPoly false false eps s extrap (v idx) (v (idx + 1)) h dx
@@ -293,13 +295,15 @@ def akima1DM5Bound (n idx : Nat) : Bool :=
 
 /-- `interp_akima.py:Interp1DAkima.interpolate` / `interpolate_vectorized`; `idx ∈ {-1, …, n-1}`.
 `none` = the `UnboundLocalError` of the single-point path on a 4-point grid. -/
-def akima1D (vec : Bool) (eps : K) (n : Nat) (g v : Nat → K) (idx : Int) (x : K) : Option K :=
+def akima1D (fix vec : Bool) (eps : K) (n : Nat) (g v : Nat → K) (idx : Int) (x : K) : Option K :=
   let extrap : Int := if idx = (n : Int) - 1 then 1 else if idx = -1 then -1 else 0
   let i : Nat := if idx = (n : Int) - 1 then n - 2 else if idx = -1 then 0 else idx.toNat
   let dx := if extrap = 1 then x - g (n - 1) else if extrap = -1 then x - g 0 else x - g i
   let h := 1 / (g (i + 1) - g i)
   if vec then
     some (akimaPoly true true eps (akimaSlopes false n g v i) extrap (v i) (v (i + 1)) h dx)
+  else if fix then
+    some (akimaPoly false true eps (akimaSlopes false n g v i) extrap (v i) (v (i + 1)) h dx)
   else if akima1DM5Bound n i then
     some (akimaPoly false true eps (akimaSlopes true n g v i) extrap (v i) (v (i + 1)) h dx)
   else none
@@ -399,14 +403,15 @@ def Method.degree : Method → Nat
   | .akima => 1
   | .cubic => 1
 
-/-- Kernel of a method; `eps` is the Akima division guard (option `eps`, default 1e-30). -/
+/-- Kernel of a method; `eps` is the Akima division guard (option `eps`, default 1e-30), `fix`
+selects the repaired Akima end conditions (irrelevant for the other methods). -/
 def Method.kernel {K : Type} [Add K] [Sub K] [Mul K] [Div K] [Neg K]
     [OfNat K 0] [OfNat K 1] [OfNat K 2] [OfNat K 3] [OfNat K 6]
-    [LT K] [DecidableLT K] [LE K] [DecidableLE K] (eps : K) : Method → Kernel K
+    [LT K] [DecidableLT K] [LE K] [DecidableLE K] (fix : Bool) (eps : K) : Method → Kernel K
   | .slinear => slinearK
   | .lagrange2 => lagrange2K
   | .lagrange3 => lagrange3K
-  | .akima => akimaK eps
+  | .akima => akimaK fix eps
   | .cubic => cubicK
 
 /-! ## Fixed-dimension variants -/
